@@ -204,7 +204,7 @@ func checkGraphCaches(w *World, r *Report, ruleDirty, ruleDegrees, ruleCacheWrit
 			muts = append(muts, fi)
 		}
 	}
-	sort.Slice(muts, func(i, j int) bool { return muts[i].Decl.Pos() < muts[j].Decl.Pos() })
+	sort.Slice(muts, func(i, j int) bool { return posLess(muts[i].Decl.Pos(), muts[j].Decl.Pos()) })
 	for _, fi := range muts {
 		r.Analysed(fi)
 		info := fi.Pkg.TypesInfo
